@@ -83,7 +83,26 @@ def cases(ctx):
                            f"zz_start:\n.{kind} {', '.join(exprs)}\nzz_end:\n.dl zz_end, zz_start\n")
                     out.append({"kind": f"data:{kind}", "rom": rom, "src": src,
                                 "spec": {"t": "data", "high": rom == "high", "org": org, "off": _phys(rom, org),
-                                         "items": [("data", kind, vals)], "end": "zz_end"}})
+                                         "items": [("data", kind, vals)], "end": "zz_end", "tail": [None, org]}})
+            # a name re-defined in the enclosing block (label or `=` symbol, before or after the directive): the
+            # directive emits the value the name has in ITS scope, not the outer `:=` constant of the same name
+            for kind in ("db", "dw", "dl"):
+                for how in ("label-after", "symbol-after", "symbol-before", "label-before"):
+                    org = _org(rng, rom)
+                    w = WIDTH[kind]
+                    outer, inner = rng.choice([2, 0x7F, 0x1234]), rng.choice([3, 0x80, 0xABCDE])
+                    if how == "label-after":
+                        body, val = f"zz_start:\n.{kind} k_a\nzz_end:\nk_a:\n", org + w
+                    elif how == "label-before":
+                        body, val = f"k_a:\nzz_start:\n.{kind} k_a\nzz_end:\n", org
+                    elif how == "symbol-after":
+                        body, val = f"zz_start:\n.{kind} k_a\nzz_end:\nk_a = {inner}\n", inner
+                    else:
+                        body, val = f"k_a = {inner}\nzz_start:\n.{kind} k_a\nzz_end:\n", inner
+                    src = f"*={org:#08x}\nk_a := {outer}\n.scope zz_sc {{\n{body}}}\n"
+                    out.append({"kind": f"shadowed:{kind}:{how}", "rom": rom, "src": src,
+                                "spec": {"t": "data", "high": rom == "high", "org": org, "off": _phys(rom, org),
+                                         "items": [("data", kind, [val])], "end": "zz_end"}})
             # .ascii
             for text in ("", "A", "Hello, World", "caf\u00e9 \u00fc!", "\u00e9\u00e9", "tab\there", "a;b/*c*/", "[0x41]"):
                 org = _org(rng, rom)
@@ -102,5 +121,6 @@ def cases(ctx):
                 src = (f"*={org:#08x}\nzz_start:\n.incbin 'blob.bin'\nzz_end:\n.dl zz_end, blob_bin, blob_bin__size\n")
                 out.append({"kind": "incbin", "rom": rom, "src": src, "files": {"blob.bin": list(content)},
                             "spec": {"t": "data", "high": rom == "high", "org": org, "off": _phys(rom, org),
-                                     "items": [("bin", list(content))], "end": "zz_end"}})
+                                     "items": [("bin", list(content))], "end": "zz_end",
+                                     "tail": [None, org, length]}})
     return out
